@@ -4,7 +4,8 @@ claim('C01',
       'Every feasible path of the real labelling kernel (and of predict_cluster_labels around it) is explored '
       'for each listed T x K shape with the whole cost table, the switching costs and a rival label sequence '
       'symbolic; on each path z3 shows unsat for "some rival is cheaper", "reported cost differs from the cost of '
-      'the returned path", "a label is out of range". Bounded (shapes in evidence.bounds), exact-real arithmetic.',
+      'the returned path", "a label is out of range"; also for integer-dtype tables with a real switching cost, and for '
+      'one table labelled twice (it must stay the caller\'s table). Bounded (shapes in evidence.bounds), exact-real arithmetic.',
       'Trusted: the symx engine and NumPy shim (validated on every run by replaying path witnesses on the real '
       'kernel), z3; floats modelled as reals; Numba-compiled kernel only exercised on replayed witnesses.',
       'DESIGN.md section 5, C01')
@@ -45,7 +46,9 @@ claim('C08',
 claim('C10',
       'The real stacking helpers run on opaque 64-bit payloads (BITS: bit-for-bit copy semantics, so NaN payloads, '
       'infinities and -0 are covered by construction) for every W, N, T and tuple of series lengths in the bounds; '
-      'split+pad run on symbolic labels and symbolic stacked lengths.', _TB, 'DESIGN.md section 5, C10')
+      'split+pad run on symbolic labels and symbolic stacked lengths. The input\'s memory order (C / Fortran) is symbolic, '
+      'arithmetic on a payload is decided in z3 FloatingPoint, and a stacking of any other geometry may precede the one '
+      'under test in the same process.', _TB, 'DESIGN.md section 5, C10')
 claim('C11',
       'Closed-form compressed index proved equal to the row-major rank by induction (base/step are unsat queries) with '
       'no bound on n other than the float-exactness side condition; compression round trips on symbolic matrices up to '
@@ -107,7 +110,8 @@ claim('C14',
       'a solver-chosen permutation, with the optimiser as an uninterpreted function of its arguments and named symbolic '
       'summaries, so that two runs are comparable term for term: every permutation, every num_processors in 1..8, the '
       'multiprocessing variable unset/empty/set, a repeated run, and every order of earlier calls with other (N,W) '
-      '(functools caches populated) give term-equal results; cached index lists are not mutated.',
+      '(whatever memoisation the code uses; compared with the state of a fresh import) and an earlier fit with an '
+      'arbitrary covariance floor give term-equal results; the optimiser stub is keyed by every argument it is given.',
       _TB + 'Bit-identity across real worker processes / BLAS threading / OS scheduling is outside the claim; the '
       'replay oracle exercises real processes with permuting delays on witnesses only.', 'DESIGN.md section 5, C14')
 claim('C18',
@@ -129,8 +133,10 @@ claim('C20',
       'Symbolic fault schedule: a fault at a symbolic (round, cluster) optimisation task of the stub pool or at a '
       'symbolic (round, phase), with the multiprocessing variable set/unset and num_processors symbolic; obligations: '
       'the very exception object surfaces, nothing runs after the fault, nothing is returned, the pool is released '
-      'before the exception leaves, a following clean call equals a fresh clean call; donor shortage and wrong input '
-      'kind raise the documented errors. Pool-release candidates are confirmed on the real build (live children).',
+      'before the exception leaves, a following clean call equals a fresh clean call; faults with and without a message '
+      '(a callback that raises on the result-handler thread is modelled as a hang); for every size vector left by round 0 '
+      'the real repopulation raises the donor error iff refills on offer < clusters to refill; wrong input kind raises the '
+      'documented error. Pool-release and hang candidates are confirmed on the real build (live children, time limit).',
       _TB + 'Real child-process liveness and hangs are decided only through replay of candidates.',
       'DESIGN.md section 5, C20')
 
